@@ -33,7 +33,45 @@ def plan(tier):
     return {"n": 320, "budget_s": 150, "case_timeout": 120}
 
 
+def _hijack_case(rng: Rng, tier: str):
+    """Directed history: an append (Copy coder) whose first member's bytes are a copy of the base archive's packed header
+    stream with one byte changed.  The new data lands exactly on the old packed header; at the crash point right behind
+    it the old signature header and header descriptor are intact, so only an integrity check of the *unpacked* header
+    stands between the torn file and a successful open with another member name."""
+    r = rng.sub("hijack")
+    knobs = {"block": 1048576, "chunk": 128000000, "bufsize": r.pick([512, 8192])}
+    names = []
+    for k in range(r.randint(2, 4)):
+        names.append("".join(chr(r.randrange(0x400, 0x9FFF)) for _ in range(r.randint(12, 30))))
+    base = {"mode": "w", "chain": [{"id": "COPY"}], "password": None, "header": "enc", "header_via": "ctor",
+            "ops": [{"op": "writestr", "name": n, "content": {"tex": "rand", "len": r.randint(1, 40), "seed": r.randrange(1 << 30)}, "as": "bytes"} for n in names]}
+    seed = r.randrange(1 << 30)
+    fs = SimFS(buffer_size=knobs["bufsize"])
+    try:
+        with Seams(fs=fs, blocksize=knobs["block"], memlimit=knobs["chunk"], clock=SimClock(tick=0.001), rand=SimRandom(Rng(seed, "iv"))):
+            rw.run_write_session(fs, base, "stream", knobs["bufsize"])
+        img = fs.get(rw.SIM_PATH).snapshot()
+        a = ref7z.read(img)
+        if not a.header_packs:
+            return None
+        lo, hi = a.header_packs[-1]
+        packed = bytearray(img[32 + lo:32 + hi])
+        if len(packed) < 16 or packed[0] != 0x01:  # LZMA2 uncompressed chunk: any payload byte may change and it still decodes
+            return None
+        off = r.randrange(8, len(packed) - 2)
+        packed[off] ^= 1 << r.randrange(8)
+    except Exception:
+        return None
+    sess = {"mode": "a", "chain": [{"id": "COPY"}], "password": None, "header": r.pick(["enc", "raw"]), "header_via": "ctor",
+            "ops": [{"op": "writestr", "name": "appended-" + gen.gen_component(r, "ascii"), "content": {"hex": bytes(packed).hex(), "len": len(packed), "tex": "hex", "seed": 0}, "as": "bytes"}]}
+    return {"base": [base], "session": sess, "target": "stream", "knobs": knobs, "rng": seed, "directed": "hijack-packed-header"}
+
+
 def gen_case(rng: Rng, i: int, tier: str):
+    if rng.sub("kind").chance(0.12):
+        c = _hijack_case(rng, tier)
+        if c is not None:
+            return c
     knobs = gen.gen_knobs(rng.sub("knobs"))
     r = rng.sub("ops")
     password = gen.gen_password(r) if r.chance(0.3) else None
@@ -71,7 +109,7 @@ def run_case(case):
                 add, err = rw.run_write_session(fs, s, case["target"], knobs["bufsize"])
                 if err is not None:
                     # a fault-free base session failed: not this property's business (C01/C08 report it)
-                    res["probes"]["base_session_raised"] = 1
+                    res["extra"]["base_session_raised"] = 1
                     res["digest"] = digest_of(["base_raised", repr(err)[:80]])
                     return res
                 model += rw.pairs(add)
@@ -95,7 +133,7 @@ def run_case(case):
     if sess_err is not None:
         # the session itself raised (reported by C01/C08/C15, not here): every state it leaves behind is still a
         # crash state, and the only complete member list it may show is the one from before the session
-        res["probes"]["session_raised"] = 1
+        res["extra"]["session_raised"] = 1
         accept = [before_model] if case["session"]["mode"] == "a" and case["base"] else []
     total = sum(len(p) for k, o, p in ops if k == "w")
     final = sf.snapshot()
@@ -156,8 +194,8 @@ def run_case(case):
         log.append((label, outcome, ro))
     # the completed session must have been observed as a correct state
     res["probes"].setdefault("accepted_complete_state", 0)
-    res["probes"].setdefault("spin_handed_to_C05", 0)
-    res["probes"].setdefault("session_raised", 0)
+    res["extra"].setdefault("spin_handed_to_C05", 0)
+    res["probes"]["directed_header_hijack"] = 1 if case.get("directed") else 0
     res["distinct_n"] = n_inside
     res["digest"] = digest_of([final, log])
     cls = "%s|%s|%s" % (case["session"]["mode"], case["target"], case["session"]["header"])
